@@ -698,7 +698,7 @@ reg("C10", [eng_control_random(M.mon_namespace, {"CT", "CS"}, always=True), eng_
 
 reg("C11", [eng_control_random(M.mon_namespace, {"DT", "DS"}, always=True),
             eng_data_random(M.mon_namespace, {"DS", "DT"}, relevant=CTL_OPS | DATA_OPS, tag="data-random", always=True),
-            lambda ctx: eng_racestress(ctx), lambda ctx: eng_abandon(ctx)],
+            lambda ctx: eng_create_delete_race(ctx), lambda ctx: eng_racestress(ctx), lambda ctx: eng_abandon(ctx)],
     rule="random scripts deleting and re-creating topics and subscriptions with publishes and pulls in between; "
          "ListTopicSubscriptions / GetSubscription / STATS after deletions. non-trivial = a successful delete",
     monitor=M.mon_namespace, title="Deletion keeps topics and subscriptions consistent with each other", design_ref="7/C11",
@@ -1033,6 +1033,12 @@ def eng_cs(ctx):
     return out
 
 
+def eng_create_delete_race(ctx):
+    cases = gen.create_delete_race_cases(range(0, 14) if not ctx.thorough else range(0, 40))
+    return ctx.seq("create-delete-race", cases, triggers={"JOIN"}, monitor=M.mon_create_delete_race, always_monitor=True,
+                   model_free=True)
+
+
 def eng_racestress(ctx):
     """Multi-thread runtime, real time: CreateSubscription racing a DeleteSubscription of the same name that spins
     until the name appears (the schedule of ConcActorsP.C11_refuted_without_guard), then the topic's list is compared
@@ -1229,7 +1235,7 @@ def eng_burst(ctx):
 
 
 
-reg("C16", [eng_abandon, eng_burst, lambda ctx: eng_racestress(ctx), eng_cs],
+reg("C16", [eng_abandon, eng_burst, lambda ctx: eng_create_delete_race(ctx), lambda ctx: eng_racestress(ctx), eng_cs],
     rule="abandon: the library-level future of CreateSubscription / DeleteSubscription / Publish / Pull / Acknowledge / "
          "DeleteTopic polled k times (y scheduler yields in between) and dropped, with the target actor's mailbox empty "
          "or saturated (0/16/24 pending requests); then Get/List/STATS/Publish/Pull probes, expiry, and re-creation of "
